@@ -259,7 +259,8 @@ def harness(args, timeout=None, input=None):
         except OSError:
             pass
         HANGS.append({"args": [str(a) for a in args], "timeout": timeout, "script": script})
-    elif rc < 0 or rc == 134 or "memory allocation of" in out[-2000:]:
+    elif rc < 0 or rc in (101, 134) or "memory allocation of" in out[-2000:]:
+        # (101: the harness itself panicked outside its catch_unwind - e.g. on a lock a library panic had poisoned)
         # the process was killed (abort on a failed allocation, a signal): the operation it was executing is the
         # last line of the progress log
         script = []
@@ -267,7 +268,7 @@ def harness(args, timeout=None, input=None):
             script = open(PROGRESS).read().splitlines()
         except OSError:
             pass
-        msg = [l for l in out.splitlines() if "memory allocation of" in l or "SIG" in l or "abort" in l.lower()]
+        msg = [l for l in out.splitlines() if "memory allocation of" in l or "SIG" in l or "abort" in l.lower() or "panicked at" in l]
         CRASHES.append({"args": [str(a) for a in args], "rc": rc, "script": script, "message": (msg or [out.strip()[-200:]])[-1][:200]})
     return rc, out
 
@@ -347,6 +348,8 @@ def finish(ctx, level="proof", checker_cmd=None, extra_assumptions=()):
             ctx.undischarged.append("the harness did not return within %s s (%s)" % (hg["timeout"], " ".join(hg["args"][:3])))
     for k, cr in enumerate(CRASHES):
         if not cr["script"]:
+            # no operation log: still not a run the verdict can rest on
+            ctx.undischarged.append("the harness process (%s) died with exit status %s: %s" % (" ".join(cr["args"][:3]), cr["rc"], cr["message"][:160]))
             continue
         last = cr["script"][-1]
         path = os.path.join(ctx.replaydir, "crash_%d.txt" % k)
